@@ -626,4 +626,507 @@ theorem tl_loop : ∀ (ss : Stmts) (p : P) (first : Bool), ss.wf = true → ss.l
     rw [tl_stmt s _ hs hlin.1 hsl1, tl_stmtSep _ _ _ hsl]
     simp only [loopD, List.append_assoc]
 
+/-! ## The walk: from token lines to transcripts -/
+
+theorem safe_ne_bs' : ∀ b : UInt8, isSafe b = true → (b != 92) = true := by
+  apply u8_forall; decide +kernel
+
+theorem normParts_plain' : ∀ parts : List WordPart, (∀ p ∈ parts, p.wf = true) →
+    (normParts parts).all NPart.plain = true
+  | [], _ => rfl
+  | .sgl l r v :: rest, h => by
+    have ih := normParts_plain' rest (fun p hp => h p (by simp [hp]))
+    simp only [normParts, List.all_cons, NPart.plain, Bool.true_and]
+    exact ih
+  | .lit a e v :: rest, h => by
+    have ih := normParts_plain' rest (fun p hp => h p (by simp [hp]))
+    have hv : v.all (· != 92) = true := by
+      have := h (.lit a e v) (by simp)
+      simp only [WordPart.wf, Bool.and_eq_true, List.all_eq_true] at this
+      exact List.all_eq_true.mpr (fun b hb => safe_ne_bs' b (this.2 b hb))
+    simp only [normParts]
+    split
+    · rename_i v' r hr
+      rw [hr] at ih
+      simp only [List.all_cons, NPart.plain, Bool.and_eq_true] at ih
+      simp only [List.all_cons, NPart.plain, List.all_append, Bool.and_eq_true]
+      exact ⟨⟨hv, ih.1⟩, ih.2⟩
+    · simp only [List.all_cons, NPart.plain, Bool.and_eq_true]
+      exact ⟨hv, ih⟩
+
+theorem wordBytes_of_norm {w w' : Word} (hw : w.wf = true) (hw' : w'.wf = true) (hn : w'.norm = w.norm) :
+    wordBytes w'.parts = wordBytes w.parts := by
+  rw [wordBytes_norm _ (normParts_plain' _ (Word.wf_parts hw')), wordBytes_norm _ (normParts_plain' _ (Word.wf_parts hw))]
+  unfold Word.norm at hn
+  rw [hn]
+
+/-- the line and kind of a word of the re-read tree -/
+def wline (w : Word) : TK × Nat := (.other, ((w.pos?).getD Pos.zero).line)
+
+/-- what the lexer guarantees about a word of the re-read tree -/
+def wok3 (w : Word) : Prop := partsMax w.parts = ((w.pos?).getD Pos.zero).line + nls (wordBytes w.parts)
+
+theorem wf_ne {w : Word} (h : w.wf = true) : w.parts ≠ [] := by
+  intro e
+  simp [Word.wf, e] at h
+
+theorem glue_word (p : P) (w w' : Word) (hw : w.wf = true) (hw' : w'.wf = true) (hn : w'.norm = w.norm)
+    (h3 : wok3 w') (hl : wline w' = (.other, (p.preWord w).cur)) : TrWord p w w' := by
+  have hb := wordBytes_of_norm hw hw' hn
+  have hl' : ((w'.pos?).getD Pos.zero).line = (p.preWord w).cur := by
+    simpa [wline] using hl
+  refine ⟨wf_ne hw, hb, ?_, ?_⟩
+  · cases hp : w'.parts with
+    | nil => exact absurd hp (wf_ne hw')
+    | cons wp' r =>
+      refine ⟨wp', r, rfl, ?_⟩
+      rw [← hl']
+      simp [Word.pos?, hp]
+  · unfold wok3 at h3
+    rw [h3, hl', hb]
+
+theorem glue_args : ∀ (ws ws' : List Word) (p : P) (any : Bool), (∀ w ∈ ws, w.wf = true) →
+    (∀ w ∈ ws', w.wf = true ∧ wok3 w) → ws'.map Word.norm = ws.map Word.norm →
+    ws'.map wline = argsD p any ws → TrArgs p any ws ws'
+  | [], [], _, _, _, _, _, _ => by simp [TrArgs]
+  | [], _ :: _, _, _, _, _, hn, _ => by simp at hn
+  | _ :: _, [], _, _, _, _, hn, _ => by simp at hn
+  | w :: rest, w' :: rest', p, any, hw, hw', hn, hd => by
+    simp only [List.map_cons, List.cons.injEq] at hn
+    have hwf := hw w (by simp)
+    obtain ⟨pos, hp⟩ := pos_of_parts (wf_ne hwf)
+    simp only [argsD, hp, List.map_cons, List.cons.injEq] at hd
+    simp only [TrArgs]
+    refine ⟨pos, hp, ?_, ?_⟩
+    · exact glue_word _ w w' hwf (hw' w' (by simp)).1 hn.1 (hw' w' (by simp)).2 hd.1
+    · exact glue_args rest rest' _ _ (fun x hx => hw x (by simp [hx])) (fun x hx => hw' x (by simp [hx])) hn.2 hd.2
+
+theorem argsD_length : ∀ (ws : List Word) (p : P) (any : Bool), wordsOK ws → (argsD p any ws).length = ws.length
+  | [], _, _, _ => rfl
+  | w :: rest, p, any, h => by
+    obtain ⟨pos, hp⟩ := pos_of_parts (h w (by simp))
+    simp only [argsD, hp, List.length_cons]
+    rw [argsD_length rest _ _ (fun x hx => h x (by simp [hx]))]
+
+theorem glue_call (p : P) (args args' : List Word) (K K' : List (TK × Nat)) (hwf : (Cmd.call args).wf = true)
+    (hwf' : (Cmd.call args').wf = true) (h3 : ∀ w ∈ args', wok3 w)
+    (hn : args'.map Word.norm = args.map Word.norm)
+    (hd : args'.map wline ++ K' = callD p args ++ K) : TrCall p args args' ∧ K' = K := by
+  obtain ⟨ho, hne⟩ := call_wordsOK hwf
+  obtain ⟨ho', _⟩ := call_wordsOK hwf'
+  have hallwf : ∀ w ∈ args, w.wf = true := by
+    cases args with
+    | nil => exact absurd rfl hne
+    | cons a r =>
+      simp only [Cmd.wf, Bool.and_eq_true, List.all_eq_true] at hwf
+      exact hwf.1
+  have hallwf' : ∀ w ∈ args', w.wf = true ∧ wok3 w := by
+    intro w hw
+    refine ⟨?_, h3 w hw⟩
+    cases args' with
+    | nil => cases hw
+    | cons a r =>
+      simp only [Cmd.wf, Bool.and_eq_true, List.all_eq_true] at hwf'
+      exact hwf'.1 w hw
+  cases args with
+  | nil => exact absurd rfl hne
+  | cons w rest =>
+    cases args' with
+    | nil => simp at hn
+    | cons w' rest' =>
+      obtain ⟨pos, hp⟩ := pos_of_parts (ho w (by simp))
+      simp only [callD, hp] at hd
+      have hlen : rest'.length = rest.length := by
+        have := congrArg List.length hn
+        simpa using this
+      have horest : wordsOK rest := fun x hx => ho x (by simp [hx])
+      have ho1 : wordsOK [w] := fun x hx => ho x (by simp only [List.mem_singleton] at hx; simp [hx])
+      -- split the token list: the first word, the other words, the continuation
+      have e1 : (List.map wline (w' :: rest') ++ K') = ([wline w'] ++ (rest'.map wline ++ K')) := by simp
+      rw [e1, List.append_assoc] at hd
+      obtain ⟨d1, d2⟩ := List.append_inj hd (by rw [argsD_length _ _ _ ho1]; rfl)
+      obtain ⟨d3, d4⟩ := List.append_inj d2 (by rw [argsD_length _ _ _ horest, List.length_map, hlen])
+      simp only [List.map_cons, List.cons.injEq] at hn
+      refine ⟨?_, d4⟩
+      simp only [TrCall]
+      refine ⟨pos, hp, ?_, ?_⟩
+      · exact glue_args [w] [w'] _ false (fun x hx => hallwf x (by simp only [List.mem_singleton] at hx; simp [hx]))
+          (fun x hx => hallwf' x (by simp only [List.mem_singleton] at hx; simp [hx])) (by simp [hn.1]) (by simpa using d1)
+      · exact glue_args rest rest' _ false (fun x hx => hallwf x (by simp [hx])) (fun x hx => hallwf' x (by simp [hx])) hn.2 d3
+
+/-- the first word of a call is never moved to a continuation line -/
+theorem first_word (p : P) (w : Word) (pos : Pos) (hp : w.pos? = some pos) :
+    argsD ((p.advanceLine pos.line).spacePad.incLevel.decLevel) false [w] = [(.other, p.cur)] := by
+  have hline : ((p.advanceLine pos.line).spacePad.incLevel.decLevel).line = max p.line pos.line := by
+    rw [decLevel_line, incLevel_line, spacePad_line]; rfl
+  have hcur : ((p.advanceLine pos.line).spacePad.incLevel.decLevel).cur = p.cur := by
+    rw [cur_decLevel, cur_incLevel, cur_spacePad]; rfl
+  have hj : ((p.advanceLine pos.line).spacePad.incLevel.decLevel).joinStep false pos =
+      ((p.advanceLine pos.line).spacePad.incLevel.decLevel, false) := by
+    unfold P.joinStep
+    rw [hline]
+    have : ¬ pos.line > max p.line pos.line := by omega
+    simp [this]
+  have hpw : (((p.advanceLine pos.line).spacePad.incLevel.decLevel).spacePad.preWord w).cur = p.cur := by
+    unfold P.preWord
+    cases hw : w.parts with
+    | nil => simp [Word.pos?, hw] at hp
+    | cons wp r =>
+      have : wp.pos = pos := by simpa [Word.pos?, hw] using hp
+      simp only [spacePad_line, hline, this]
+      have : ¬ pos.line > max p.line pos.line := by omega
+      simp only [this, decide_false, Bool.and_false, Bool.false_eq_true, ↓reduceIte, cur_spacePad, hcur]
+  simp only [argsD, hp, hj, hpw]
+
+theorem cur_stmtPre (p : P) (neg : Bool) : (p.stmtPre neg).cur = p.cur := by
+  unfold P.stmtPre
+  cases neg
+  · rfl
+  · show (P.tok _ [33]).cur = _
+    rw [cur_tok, cur_spacePad]; rfl
+
+mutual
+theorem stmtD_head : ∀ (s : Stmt) (p : P), s.wf = true → s.lin = true → ∃ rest, stmtD p s = (TK.other, p.cur) :: rest
+  | .mk _ semi neg bg cmd, p, hwf, hlin => by
+    have hcw : cmd.wf = true := by
+      simp only [Stmt.wf, Bool.and_eq_true] at hwf; exact hwf.1
+    have hcl : cmd.lin = true := by simpa [Stmt.lin] using hlin
+    cases neg with
+    | true => exact ⟨_, by simp only [stmtD, ↓reduceIte, List.singleton_append]; rfl⟩
+    | false =>
+      obtain ⟨r, e⟩ := cmdD_head cmd (p.stmtPre false) hcw hcl
+      exact ⟨_, by simp only [stmtD, Bool.false_eq_true, ↓reduceIte, List.nil_append, e, List.cons_append]; rw [cur_stmtPre]⟩
+theorem cmdD_head : ∀ (c : Cmd) (p : P), c.wf = true → c.lin = true → ∃ rest, cmdD p c = (TK.other, p.cur) :: rest
+  | .call args, p, hwf, _ => by
+    obtain ⟨ho, hne⟩ := call_wordsOK hwf
+    cases args with
+    | nil => exact absurd rfl hne
+    | cons w rest =>
+      obtain ⟨pos, hp⟩ := pos_of_parts (ho w (by simp))
+      exact ⟨_, by simp only [cmdD, callD, hp, first_word p w pos hp, List.singleton_append]; rfl⟩
+  | .binary opPos op x y, p, hwf, hlin => by
+    simp only [Cmd.lin, Bool.and_eq_true] at hlin
+    have hxw : x.wf = true := by simp only [Cmd.wf, Bool.and_eq_true] at hwf; exact hwf.1.1.1.1
+    obtain ⟨r, e⟩ := stmtD_head x ((p.advanceLine x.pos.line).spacePad) hxw hlin.1
+    exact ⟨_, by simp only [cmdD, e, List.cons_append]; rw [cur_spacePad]; rfl⟩
+  | .subshell _ _ _, _, _, h => by simp [Cmd.lin] at h
+  | .block _ _ _, _, _, h => by simp [Cmd.lin] at h
+end
+
+/-- the head of a token list is not `;` or `&` -/
+def NoSA (K : List (TK × Nat)) : Prop := ∀ x rest, K = x :: rest → x.1 = .other
+
+/-- the terminator of the re-read statement -/
+def semiToks (semi' : Pos) (bg : Bool) : List TokPos :=
+  if semi'.valid then [((if bg then Tok.amp else Tok.semi), semi')] else []
+
+theorem semi_glue (p : P) (semi semi' : Pos) (bg : Bool) (K K' : List (TK × Nat))
+    (hd : (semiToks semi' bg).map tinfo ++ K' = semiD p semi bg ++ K)
+    (hs : (NoSA K ∧ NoSA K') ∨ ((bg = false ∧ semi.valid = false) ∧ semi'.valid = false)) :
+    TrSemi p semi bg semi' ∧ K' = K := by
+  rcases hs with ⟨hK, hK'⟩ | ⟨⟨hb, hv⟩, hv'⟩
+  · unfold semiD at hd
+    unfold semiToks at hd
+    by_cases c : (semi.valid && decide (semi.line > p.line)) = true
+    · simp only [c, ↓reduceIte] at hd
+      cases hv' : semi'.valid with
+      | true =>
+        simp only [hv', ↓reduceIte, List.map_cons, List.map_nil, List.cons_append, List.nil_append, List.cons.injEq] at hd
+        have hl : semi'.line = p.cur + 1 := by
+          have := congrArg Prod.snd hd.1
+          simpa [tinfo] using this
+        refine ⟨⟨by rw [c, hv']; simp, fun _ _ => hl, fun hn _ => ?_⟩, hd.2⟩
+        exfalso
+        simp only [Bool.and_eq_true, decide_eq_true_eq] at c
+        exact hn c
+      | false =>
+        simp only [hv', Bool.false_eq_true, ↓reduceIte, List.map_nil, List.nil_append, List.cons_append] at hd
+        exfalso
+        have := hK' _ _ hd
+        cases bg <;> simp at this
+    · have c' : (semi.valid && decide (semi.line > p.line)) = false := by simpa using c
+      have hnc : ¬ (semi.valid = true ∧ semi.line > p.line) := by
+        intro hh
+        apply c
+        simp [hh.1, hh.2]
+      simp only [c', Bool.false_eq_true, ↓reduceIte] at hd
+      cases bg with
+      | true =>
+        simp only [↓reduceIte] at hd
+        cases hv' : semi'.valid with
+        | true =>
+          simp only [hv', ↓reduceIte, List.map_cons, List.map_nil, List.cons_append, List.nil_append, List.cons.injEq] at hd
+          have hl : semi'.line = p.cur := by
+            have := congrArg Prod.snd hd.1
+            simpa [tinfo] using this
+          exact ⟨⟨by rw [c', hv']; simp, fun h1 h2 => absurd ⟨h1, h2⟩ hnc, fun _ _ => hl⟩, hd.2⟩
+        | false =>
+          simp only [hv', Bool.false_eq_true, ↓reduceIte, List.map_nil, List.nil_append, List.cons_append] at hd
+          exfalso
+          have := hK' _ _ hd
+          simp at this
+      | false =>
+        simp only [Bool.false_eq_true, ↓reduceIte, List.nil_append] at hd
+        cases hv' : semi'.valid with
+        | true =>
+          simp only [hv', ↓reduceIte, List.map_cons, List.map_nil, List.cons_append, List.nil_append] at hd
+          exfalso
+          have := hK _ _ hd.symm
+          simp [tinfo, tkOf] at this
+        | false =>
+          simp only [hv', Bool.false_eq_true, ↓reduceIte, List.map_nil, List.nil_append] at hd
+          exact ⟨⟨by rw [c', hv']; simp, fun h1 h2 => absurd ⟨h1, h2⟩ hnc, fun _ hb => by cases hb⟩, hd⟩
+  · subst hb
+    have e1 : semiD p semi false = [] := by simp [semiD, hv]
+    have e2 : semiToks semi' false = [] := by simp [semiToks, hv']
+    rw [e1, e2] at hd
+    simp only [List.map_nil, List.nil_append] at hd
+    exact ⟨⟨by simp [hv, hv'], (fun h1 _ => by rw [hv] at h1; cases h1), (fun _ hb => by cases hb)⟩, hd⟩
+
+/-- what is known of a statement of the re-read tree -/
+structure OKs (s' : Stmt) : Prop where
+  wf : s'.wf = true
+  ok3 : ∀ tp ∈ s'.ftoks, tp.1.ok3 tp.2
+  sorted : Sorted s'.lines
+structure OKc (c' : Cmd) : Prop where
+  wf : c'.wf = true
+  ok3 : ∀ tp ∈ c'.ftoks, tp.1.ok3 tp.2
+  sorted : Sorted c'.lines
+
+theorem OKs.cmd {pos semi : Pos} {neg bg : Bool} {cmd : Cmd} (h : OKs (.mk pos semi neg bg cmd)) : OKc cmd := by
+  refine ⟨?_, ?_, ?_⟩
+  · have := h.wf
+    simp only [Stmt.wf, Bool.and_eq_true] at this
+    exact this.1
+  · intro tp htp
+    exact h.ok3 tp (by simp [Stmt.ftoks, htp])
+  · have := h.sorted
+    unfold Sorted at this ⊢
+    simp only [Stmt.lines] at this
+    exact (List.pairwise_append.mp (List.pairwise_cons.mp this).2).1
+
+theorem OKc.binary {opPos : Pos} {op : BinOp} {x y : Stmt} (h : OKc (.binary opPos op x y)) :
+    OKs x ∧ OKs y ∧ opPos.line ≤ y.pos.line ∧ x.bare = true ∧ y.bare = true := by
+  have hw := h.wf
+  simp only [Cmd.wf, Bool.and_eq_true] at hw
+  have hs := h.sorted
+  unfold Sorted at hs
+  simp only [Cmd.lines] at hs
+  obtain ⟨s1, s2, _⟩ := List.pairwise_append.mp hs
+  obtain ⟨s3, s4⟩ := List.pairwise_cons.mp s2
+  obtain ⟨t, ht⟩ := Stmt.lines_cons y
+  refine ⟨⟨hw.1.1.1.1, fun tp htp => h.ok3 tp (by simp [Cmd.ftoks, htp]), s1⟩,
+    ⟨hw.1.1.1.2, fun tp htp => h.ok3 tp (by simp [Cmd.ftoks, htp]), s4⟩, ?_, hw.1.1.2, hw.1.2⟩
+  exact s3 _ (by rw [ht]; simp)
+
+theorem OKc.call {args : List Word} (h : OKc (.call args)) : ∀ w ∈ args, wok3 w := by
+  intro w hw
+  have := h.ok3 (Tok.word w (litWord? w.parts), (w.pos?).getD Pos.zero) (by
+    simp only [Cmd.ftoks, List.mem_map]
+    exact ⟨w, hw, rfl⟩)
+  exact this
+
+theorem call_tinfo (args : List Word) : (Cmd.call args).ftoks.map tinfo = args.map wline := by
+  simp [Cmd.ftoks, tinfo, tkOf, wline, Function.comp_def]
+
+theorem bare_facts {pos semi : Pos} {neg bg : Bool} {cmd : Cmd} (h : (Stmt.mk pos semi neg bg cmd).bare = true) :
+    bg = false ∧ semi.valid = false := by
+  simpa [Stmt.bare, Stmt.bg, Stmt.semi] using h
+
+/-- the context of the command of a statement -/
+def ctxCmd (ctx : Option Pos) (neg : Bool) (pos : Pos) : Option Pos :=
+  match ctx with
+  | none => if neg then some pos else none
+  | some bp => some bp
+
+mutual
+theorem glue_stmt : ∀ (s s' : Stmt) (p : P) (ctx : Option Pos) (K K' : List (TK × Nat)),
+    s.wf = true → s.lin = true → p.o.singleLine = false → OKs s' → s'.norm = s.norm → s'.pk ctx →
+    (∀ bp, ctx = some bp → bp.line = p.cur) →
+    s'.ftoks.map tinfo ++ K' = stmtD p s ++ K →
+    ((NoSA K ∧ NoSA K') ∨ (s.bare = true ∧ s'.bare = true)) →
+    TrStmt p s s' ∧ K' = K
+  | .mk pos semi neg bg cmd, .mk pos' semi' neg' bg' cmd', p, ctx, K, K', hwf, hlin, hsl, ok, hn, hpk, hctx, hd, hs => by
+    simp only [Stmt.norm, NStmt.mk.injEq] at hn
+    obtain ⟨rfl, rfl, hnc⟩ := hn
+    have hcw : cmd.wf = true := by
+      simp only [Stmt.wf, Bool.and_eq_true] at hwf; exact hwf.1
+    have hcl : cmd.lin = true := by simpa [Stmt.lin] using hlin
+    simp only [Stmt.pk] at hpk
+    have hsl1 : (p.stmtPre neg').o.singleLine = false := by rw [stmtPre_o]; exact hsl
+    have hc1 : (p.stmtPre neg').cur = p.cur := cur_stmtPre p neg'
+    -- the position of the statement and the tokens after the optional `!`
+    have key : pos'.line = p.cur ∧
+        cmd'.ftoks.map tinfo ++ ((semiToks semi' bg').map tinfo ++ K') =
+          cmdD (p.stmtPre neg') cmd ++ (semiD ((p.stmtPre neg').command cmd) semi bg' ++ K) := by
+      simp only [Stmt.ftoks, stmtD] at hd
+      cases neg' with
+      | true =>
+        simp only [↓reduceIte, List.map_cons, List.cons_append, List.cons.injEq,
+          List.map_append, List.append_assoc] at hd
+        refine ⟨?_, hd.2⟩
+        have := congrArg Prod.snd hd.1
+        simpa [tinfo, rsrvTok] using this
+      | false =>
+        simp only [Bool.false_eq_true, ↓reduceIte, List.nil_append, List.map_append, List.append_assoc] at hd
+        refine ⟨?_, hd⟩
+        cases ctx with
+        | some bp =>
+          simp only at hpk
+          rw [hpk.1.1]
+          exact hctx bp rfl
+        | none =>
+          simp only at hpk
+          obtain ⟨tp, r, e1, e2⟩ := hpk.1 trivial
+          obtain ⟨r2, e3⟩ := cmdD_head cmd (p.stmtPre false) hcw hcl
+          rw [e1, e3] at hd
+          simp only [List.map_cons, List.cons_append, List.cons.injEq] at hd
+          have := congrArg Prod.snd hd.1
+          simp only [tinfo] at this
+          rw [← e2, this, hc1]
+    obtain ⟨hpos, hd2⟩ := key
+    -- the command
+    have hck : cmd'.pk (ctxCmd ctx neg' pos') := by
+      cases ctx <;> exact hpk.2
+    have hctx1 : ∀ bp, ctxCmd ctx neg' pos' = some bp → bp.line = (p.stmtPre neg').cur := by
+      intro bp e
+      rw [hc1]
+      cases ctx with
+      | none =>
+        simp only [ctxCmd] at e
+        split at e
+        · simp only [Option.some.injEq] at e
+          rw [← e]; exact hpos
+        · cases e
+      | some b2 =>
+        simp only [ctxCmd, Option.some.injEq] at e
+        rw [← e]; exact hctx b2 rfl
+    obtain ⟨tc, hd3⟩ := glue_cmd cmd cmd' (p.stmtPre neg') _ _ _ hcw hcl hsl1 ok.cmd hnc hck hctx1 hd2
+    -- the terminator
+    have hs' : (NoSA K ∧ NoSA K') ∨ ((bg' = false ∧ semi.valid = false) ∧ semi'.valid = false) := by
+      rcases hs with h1 | ⟨h1, h2⟩
+      · exact Or.inl h1
+      · exact Or.inr ⟨bare_facts h1, (bare_facts h2).2⟩
+    obtain ⟨ts, hk⟩ := semi_glue _ semi semi' bg' K K' hd3 hs'
+    refine ⟨?_, hk⟩
+    simp only [TrStmt]
+    exact ⟨trivial, trivial, hpos, tc, ts⟩
+theorem glue_cmd : ∀ (c c' : Cmd) (p : P) (ctxc : Option Pos) (K K' : List (TK × Nat)),
+    c.wf = true → c.lin = true → p.o.singleLine = false → OKc c' → c'.norm = c.norm → c'.pk ctxc →
+    (∀ bp, ctxc = some bp → bp.line = p.cur) →
+    c'.ftoks.map tinfo ++ K' = cmdD p c ++ K → TrCmd p c c' ∧ K' = K
+  | .call args, c', p, ctxc, K, K', hwf, _, _, ok, hn, _, _, hd => by
+    cases c' with
+    | call args' =>
+      simp only [Cmd.norm, NCmd.call.injEq] at hn
+      rw [call_tinfo] at hd
+      simp only [cmdD] at hd
+      obtain ⟨t, hk⟩ := glue_call p args args' K K' hwf ok.wf ok.call hn hd
+      refine ⟨?_, hk⟩
+      simp only [TrCmd]
+      exact t
+    | subshell _ _ _ => simp [Cmd.norm] at hn
+    | block _ _ _ => simp [Cmd.norm] at hn
+    | binary _ _ _ _ => simp [Cmd.norm] at hn
+  | .binary opPos op x y, c', p, ctxc, K, K', hwf, hlin, hsl, ok, hn, hpk, hctx, hd => by
+    cases c' with
+    | call _ => simp [Cmd.norm] at hn
+    | subshell _ _ _ => simp [Cmd.norm] at hn
+    | block _ _ _ => simp [Cmd.norm] at hn
+    | binary opPos' op' x' y' =>
+      simp only [Cmd.norm, NCmd.binary.injEq] at hn
+      obtain ⟨rfl, hnx, hny⟩ := hn
+      simp only [Cmd.lin, Bool.and_eq_true] at hlin
+      have hw := hwf
+      simp only [Cmd.wf, Bool.and_eq_true] at hw
+      obtain ⟨okx, oky, hop, hbx', hby'⟩ := ok.binary
+      simp only [Cmd.pk] at hpk
+      have hsl0 : ((p.advanceLine x.pos.line).spacePad).o.singleLine = false := by rw [spacePad_o]; exact hsl
+      have hsl1 : (((p.advanceLine x.pos.line).spacePad).stmt x).o.singleLine = false := by
+        rw [stmt_o x _ hlin.1]; exact hsl0
+      have hc0 : ((p.advanceLine x.pos.line).spacePad).cur = p.cur := by rw [cur_spacePad]; rfl
+      simp only [Cmd.ftoks, cmdD, List.map_append, List.map_cons, List.append_assoc, List.cons_append] at hd
+      have hpkx : x'.pk (if op' = BinOp.pipe then ctxc else none) := by
+        split
+        · rename_i e; simpa [e] using hpk.1
+        · rename_i e; simpa [e] using hpk.1
+      obtain ⟨tx, hd2⟩ := glue_stmt x x' _ (if op' = BinOp.pipe then ctxc else none) _ _ hw.1.1.1.1 hlin.1 hsl0 okx hnx hpkx
+        (by
+          intro bp e
+          rw [hc0]
+          split at e
+          · exact hctx bp e
+          · cases e) hd (Or.inr ⟨hw.1.1.2, hbx'⟩)
+      simp only [List.cons.injEq] at hd2
+      obtain ⟨ty, hk⟩ := glue_stmt y y' _ none K K' hw.1.1.1.2 hlin.2 (by rw [binaryOp_o]; exact hsl1) oky hny hpk.2
+        (by intro bp e; cases e) hd2.2 (Or.inr ⟨hw.1.2, hby'⟩)
+      refine ⟨?_, hk⟩
+      simp only [TrCmd]
+      exact ⟨trivial, tx, hop, ty⟩
+  | .subshell _ _ _, _, _, _, _, _, _, h, _, _, _, _, _, _ => by simp [Cmd.lin] at h
+  | .block _ _ _, _, _, _, _, _, _, h, _, _, _, _, _, _ => by simp [Cmd.lin] at h
+end
+
+/-- `print_in_Prints_gen` with the piece list named: the bytes printed are the rendering of the
+    pieces of the final printer state, and these satisfy `lexChain` -/
+theorem print_chain (o : Opts) (f : File) (b : Bytes) (hwf : f.wf = true) (hmono : posMono f)
+    (hne : f.stmts ≠ .nil) (hp : printFile o f = .ok b) :
+    b = render (((P.init o).stmtList f.stmts).newline 0).out.reverse ∧
+      lexChain (((P.init o).stmtList f.stmts).newline 0).out.reverse = true := by
+  unfold printFile at hp
+  split at hp
+  · cases hp
+  · rename_i href
+    have href' : refuse o = false := by simpa using href
+    have hinv := ((Inv.init o).stmtList f.stmts hwf).newline 0
+    rw [hinv.finish] at hp
+    simp only [Except.ok.injEq] at hp
+    subst hp
+    obtain ⟨ss⟩ := f
+    simp only at hwf hne
+    unfold posMono at hmono
+    simp only at hmono
+    cases ss with
+    | nil => exact absurd rfl hne
+    | cons s rest =>
+      obtain ⟨hswf, hrwf⟩ := Stmts.wf_cons hwf
+      have hpre0 : Pre (P.init o) (s.lines ++ rest.lines) := by
+        refine ⟨by simpa [Stmts.lines] using hmono, fun l _ => ?_⟩
+        show 0 ≤ l
+        exact Nat.zero_le l
+      obtain ⟨s1, s2, s3, s4⟩ := stmtSep_first o s.pos.line
+      have hw0 : W ((P.init o).stmtSep true s.pos.line) :=
+        ⟨by simp [P.sum, s1, summarize], fun l hl _ => by simp [P.sum, s1, summarize] at hl⟩
+      have hsum0 : ((P.init o).stmtSep true s.pos.line).sum.toks = [] := by simp [P.sum, s1, summarize]
+      have hposle := Stmt.pos_le_lines hpre0
+      have hpq : Pre ((P.init o).stmtSep true s.pos.line) s.lines :=
+        ⟨(Pre.left hpre0).1, fun l hl => le_stmtSep true _ ((Pre.left hpre0).2 l hl) (hposle l hl)⟩
+      have hprest : Pre ({ (((P.init o).stmtSep true s.pos.line).stmt s) with wantNewline := true } : P) rest.lines :=
+        Pre.next hpre0 (fun M h1 h2 => le_stmt s M _ (le_stmtSep true _ h1 (h2 _ (Stmt.pos_mem_lines s))) h2)
+      have hrq : refuse ((P.init o).stmtSep true s.pos.line).o = false := by rw [s4]; exact href'
+      obtain ⟨ls, hs⟩ := gen_stmt s hswf _ hw0 s2 s3 hrq hpq (fun _ e => by simp [P.sum, s1, summarize] at e)
+      obtain ⟨lt, hl⟩ := list_assemble hs s3 s2 rest
+        (fun hne => gen_loop rest hrwf hne _ (postG_of_stmtOut hs s3 s2 hrq) hprest)
+      have hunf : (P.init o).stmtListLoop true (.cons s rest) =
+          P.stmtListLoop { (((P.init o).stmtSep true s.pos.line).stmt s) with wantNewline := true } false rest := by
+        rw [P.stmtListLoop]
+      rw [← hunf] at hl
+      obtain ⟨pf, hpf⟩ : ∃ pf, pf = (P.init o).stmtListLoop true (.cons s rest) := ⟨_, rfl⟩
+      rw [← hpf] at hl
+      have ht : pf.sum.toks = lt.toks := by
+        rw [hl.toks, hsum0]
+        simp
+      obtain ⟨f1, f2, f3⟩ := LStmts.withFinalNl_facts lt hl.fnl
+      have hout : (((P.init o).stmtList (.cons s rest)).newline 0).out = .gap [10] :: pf.out := by
+        have := (P.stmtListWith_out (P.init o) (.cons s rest) (fun q => q.stmtListLoop true (.cons s rest))).1
+        unfold P.stmtList
+        show Piece.gap [10] :: _ = _
+        rw [this, hpf]
+      have hsumF : summarize {} ((((P.init o).stmtList (.cons s rest)).newline 0).out.reverse) =
+          pf.sum.step (.gap [10]) := by
+        rw [hout]
+        simp [P.sum, summarize, List.foldl_append]
+      obtain ⟨c1, c2⟩ := lexChain_expect_init _ (by rw [hsumF, step_nl]; exact hl.w.ok) (by rw [hsumF, step_nl]; rfl)
+      exact ⟨rfl, c1⟩
+
 end ShVerif.L4
